@@ -392,6 +392,10 @@ def fn_impl(case):
     if op == "refreqs": return impl_refreqs(d)
     if op == "refresp": return impl_refresp(unhx(case["method_hex"]), bool(case["eof"]), d)
     if op == "unfold": return hx(R.unfold(d))
+    if op == "chunkhdr":
+        from h11._readers import chunk_header_re
+        m = chunk_header_re.fullmatch(d + b"\r\n")
+        return str(int(m["chunk_size"], 16)) if m else "err"
     if op == "te":
         from mitmproxy.net.http import validate
         try:
@@ -497,7 +501,9 @@ class Check(PropertyCheck):
                     "mitmproxy.proxy.layers.http._http1:Http1Client.send", "mitmproxy.proxy.layers.http._http1:Http1Server.send",
                     "mitmproxy.proxy.layers.http._http1:Http1Server.read_headers", "mitmproxy.proxy.layers.http._http1:Http1Client.read_headers",
                     "mitmproxy.proxy.layers.http._http1:Http1Connection.read_body",
-                    "mitmproxy.proxy.layers.http:HttpStream.check_invalid", "mitmproxy.proxy.layers.http:validate_request"]
+                    "mitmproxy.proxy.layers.http:HttpStream.check_invalid", "mitmproxy.proxy.layers.http:validate_request",
+                    "h11._readers:ChunkedReader.__call__", "h11._receivebuffer:ReceiveBuffer.maybe_extract_lines",
+                    "h11._receivebuffer:ReceiveBuffer.maybe_extract_next_line"]
     trusted_base = ["h11 ReceiveBuffer.maybe_extract_lines and the h11 body readers as transcribed in the model (tied by the correspondence)",
                     "mitmproxy.net.http.url.parse_authority / url.parse: a model parameter (authOk); only simple host[:port] authorities are compared",
                     "harness/common/refparsers.py (independent strict RFC 9112 parser) as the oracle; tied to its Lean twin `Ref` on every run"]
@@ -559,6 +565,11 @@ class Check(PropertyCheck):
             v = rng.pick(X.CL_VALUES)
             if rng.chance(0.4): v = X.mutate(rng, v) if v else v
             yield {"op": "cl", "data_hex": hx(v)}
+        elif r < 0.89:
+            v = rng.pick([b"0", b"5", b"a", b"FF", b"1f", b"0005", b"5;x", b"5;a=b;c", b"5 ", b"5\t ", b"5 ;x", b"", b";x", b"g", b"5;a\rb", b"5;a\nb",
+                          b"5x", b"0;\x00", b"123456789012345678901", b"12345678901234567890", b"5; ", b" 5", b"5;\xc3\xa9"])
+            if rng.chance(0.4) and v: v = X.mutate(rng, v)
+            if b"\r\n" not in v: yield {"op": "chunkhdr", "data_hex": hx(v)}
         elif r < 0.93:
             yield {"op": "unfold", "data_hex": hx(rng.pick([b"a\r\n b", b" a \r\n\t b \r\n  c ", b"\r\n x", b"a\r\n ", b"a\n b", b"plain", b"", b"a\r"]) )}
         else:
